@@ -2,10 +2,10 @@
 //!   <cfg> ;; <writer expr, prefix> ;; op ; op ; …
 //!   cfg:   full|compact|pretty|json  t<0|1> l<0|1> i<0|1> n<0|1> f<0|1> L<0|1> s<mask>   (+ json: c<0|1> span, S<0|1> span list, F<0|1> flatten)
 //!   wexpr: S<k> | M<l> e | m<l> e | Fl<k> e | Ft<t> e | Fn<t> e | T e e | O e e | B e
-//!   ops:   ev <lvl> <tgt> <fields|-> | sp <k> <lvl> <tgt> <name> <fields|-> | en k | ex k | cl k | rc k <fields>
+//!   ops:   ev <lvl> <tgt> <fields|-> | sp <k> <lvl> <tgt> <hex name> <fields|-> | en k | ex k | cl k | rc k <fields>  (record into declared fields)
 //!          | pe <lvl> <tgt>  (an event whose field's Debug impl panics; the panic is caught)
 //!          | mt <threads> <events>   (concurrent emission)
-//!   fields: name=i<int>|s<hex str>|b<0|1>|d<hex str> (Debug), comma separated
+//!   fields: <hex name>=i<int>|u<uint>|f<float|nan|inf|-inf>|s<hex str>|b<0|1>|d<hex str> (Debug)|e (declared, empty), comma separated
 //! Output per op: the sinks' call log since the previous op: `k:f<lvl>.<tgt>` (make_writer_for), `k:p` (make_writer),
 //! `k:w<hex>` (one write call).
 use std::collections::HashMap;
@@ -82,7 +82,7 @@ impl std::fmt::Debug for Bomb {
     fn fmt(&self, f: &mut std::fmt::Formatter<'_>) -> std::fmt::Result { let _ = f.write_str("partial"); panic!("Debug impl panics") }
 }
 
-enum V { I(i64), S(String), B(bool), D(String), Bomb }
+enum V { I(i64), U(u64), F(f64), S(String), B(bool), D(String), E, Bomb }
 struct Dbg(String);
 impl std::fmt::Debug for Dbg { fn fmt(&self, f: &mut std::fmt::Formatter<'_>) -> std::fmt::Result { f.write_str(&self.0) } }
 
@@ -92,6 +92,9 @@ fn parse_fields(s: &str) -> Vec<(String, V)> {
         let (k, v) = kv.split_once('=').expect("k=v");
         let val = match v.as_bytes()[0] {
             b'i' => V::I(v[1..].parse().unwrap()),
+            b'u' => V::U(v[1..].parse().unwrap()),
+            b'f' => V::F(match &v[1..] { "nan" => f64::NAN, "inf" => f64::INFINITY, "-inf" => f64::NEG_INFINITY, t => t.parse().unwrap() }),
+            b'e' => V::E,
             b's' => V::S(unhex_str(&v[1..])),
             b'b' => V::B(&v[1..] == "1"),
             b'd' => V::D(unhex_str(&v[1..])),
@@ -112,7 +115,11 @@ fn with_values<R>(meta: &'static Metadata<'static>, vals: &[(String, V)], f: imp
         _ => None,
     }).collect();
     let refs: Vec<Option<&dyn Value>> = vals.iter().enumerate().map(|(i, (_, v))| -> Option<&dyn Value> {
+        if let V::E = v { return None; }
         Some(match v {
+            V::E => unreachable!(),
+            V::U(n) => n as &dyn Value,
+            V::F(n) => n as &dyn Value,
             V::I(n) => n as &dyn Value,
             V::S(s) => s as &dyn Value,
             V::B(b) => b as &dyn Value,
@@ -180,6 +187,7 @@ fn main() {
         let d = build_dispatch(&toks[..s1], w);
         let mut metas = Metas(HashMap::new());
         let mut spans: HashMap<usize, span::Id> = HashMap::new();
+        let mut span_meta: HashMap<usize, &'static Metadata<'static>> = HashMap::new();
         let mut outs: Vec<String> = Vec::new();
         let dd = d.clone();
         tracing::dispatch::with_default(&dd, || {
@@ -200,14 +208,29 @@ fn main() {
                     "sp" => {
                         let k: usize = op[1].parse().unwrap();
                         let vals = parse_fields(op[5]);
-                        let m = metas.get(op[4], op[3].parse().unwrap(), op[2].parse().unwrap(), false, &vals);
+                        let m = metas.get(&unhex_str(op[4]), op[3].parse().unwrap(), op[2].parse().unwrap(), false, &vals);
                         let id = with_values(m, &vals, |vs| d.new_span(&span::Attributes::new(m, vs)));
                         spans.insert(k, id);
+                        span_meta.insert(k, m);
                     }
                     "en" | "ex" | "cl" => {
                         let k: usize = op[1].parse().unwrap();
                         if let Some(id) = spans.get(&k).cloned() {
                             match op[0] { "en" => d.enter(&id), "ex" => d.exit(&id), _ => { d.try_close(id); spans.remove(&k); } }
+                        }
+                    }
+                    "rc" => {
+                        let k: usize = op[1].parse().unwrap();
+                        if let (Some(id), Some(m)) = (spans.get(&k).cloned(), span_meta.get(&k).cloned()) {
+                            let mut given = parse_fields(op[2]);
+                            // aligned with the span's declared fields; the ones not named stay empty
+                            let vals: Vec<(String, V)> = m.fields().iter().map(|f| {
+                                match given.iter().position(|(n, _)| n == f.name()) {
+                                    Some(i) => given.remove(i),
+                                    None => (f.name().to_string(), V::E),
+                                }
+                            }).collect();
+                            with_values(m, &vals, |vs| d.record(&id, &span::Record::new(vs)));
                         }
                     }
                     "mt" => {
